@@ -75,7 +75,7 @@ $(B)/$(2)/$(1).o: engines/$(1).cpp $(SIMHDR) $(B)/config/TasmanianConfig.hpp
 $(B)/$(2)/$(1): $(B)/$(2)/$(1).o $(B)/$(2)/libtsg.a $(B)/simrt.o $(3)
 	$(CXX) -g -no-pie $(B)/$(2)/$(1).o $(3) $(B)/$(2)/libtsg.a $(B)/simrt.o -lpthread -ldl -o $$@
 endef
-ENGINES_thr := c18
+ENGINES_thr := c18 c12
 $(foreach e,$(ENGINES_thr),$(eval $(call ENGINE_RULE_SIM,$(e),thr,)))
 
 .PHONY: all clean $(addprefix eng-,$(ENGINES_asan))
